@@ -21,6 +21,18 @@ CLAIMED = {
             "scheduling owned by the simulator; reports distinct interleavings reached. Sampling, not enumeration."),
 }
 
+CLAIMED.update({
+    "C18": ("fault_enumeration", "3 C18", TECH + "SIGINT delivered at every (thorough) / a stratified sample (quick) of scheduler steps of a base run, plus process exit as a crash point; oracle = private TMPDIR empty after exit, exit within a step bound after the last signal",
+            "Crash-point enumeration over the simulated signal thread: the real handler closure, the real temp-file code and "
+            "the real coordinator run under the baton scheduler; leaks are classified by life-cycle position."),
+    "C17": ("exploration", "3 C17", TECH + "same log generator at n, 2n, 4n blocks under adversarial schedules (starved coordinator / worker); --summary high-water marks must be flat and under a computed bound",
+            "Whether a printed message can be released is decided by the worker/coordinator interleaving, which the simulator "
+            "owns; metamorphic over size. Sampling."),
+    "C07": ("fault_enumeration", "3 C07", TECH + "stored-data faults on the simulated disk (every truncation point and single-byte corruption of small valid files of each kind, random bytes, mismatching names) alone and beside valid sources; oracle = exit status in {0,1}, no panic/deadlock/livelock, co-sources intact",
+            "Thorough tier enumerates the complete truncation/corruption space of small valid files of each kind and "
+            "container; quick tier samples it. No-crash/no-hang is decided by the scheduler (deadlock, step budget) and exit status."),
+})
+
 NOT_APPLICABLE = {
     "C04": "pure function from (line bytes, pattern table, fallback zone) to an instant: no schedule, clock, fault or interleaving to simulate (DESIGN section 5)",
     "C16": "pure terminating recursion on a file-name string: no I/O, time or concurrency to simulate (DESIGN section 5)",
